@@ -1509,21 +1509,27 @@ class _ConnectionFairy(PoolProxiedConnection):
         if self.dbapi_connection is None:
             util.warn("Can't invalidate an already-closed connection.")
             return
-        if self._connection_record:
-            self._connection_record.invalidate(e=e, soft=soft)
-        elif not soft:
-            # detached; there is no _ConnectionRecord that would close
-            # the DBAPI connection
-            if self._pool.dispatch.close_detached:
-                self._pool.dispatch.close_detached(self.dbapi_connection)
-            self._pool._close_connection(self.dbapi_connection, terminate=True)
-        if not soft:
-            # prevent any rollback / reset actions etc. on
-            # the connection
-            self.dbapi_connection = None  # type: ignore[assignment]
+        try:
+            if self._connection_record:
+                self._connection_record.invalidate(e=e, soft=soft)
+            elif not soft:
+                # detached; there is no _ConnectionRecord that would close
+                # the DBAPI connection
+                if self._pool.dispatch.close_detached:
+                    self._pool.dispatch.close_detached(self.dbapi_connection)
+                self._pool._close_connection(
+                    self.dbapi_connection, terminate=True
+                )
+        finally:
+            # also if closing the DBAPI connection was interrupted by a
+            # BaseException: it must not be used any further
+            if not soft:
+                # prevent any rollback / reset actions etc. on
+                # the connection
+                self.dbapi_connection = None  # type: ignore[assignment]
 
-            # finalize
-            self._checkin()
+                # finalize
+                self._checkin()
 
     def cursor(self, *args: Any, **kwargs: Any) -> DBAPICursor:
         assert self.dbapi_connection is not None
